@@ -7,6 +7,7 @@ package props
 
 import (
 	"fmt"
+	banktypes "github.com/cosmos/cosmos-sdk/x/bank/types"
 	"math/big"
 	"math/rand"
 	"sort"
@@ -995,6 +996,19 @@ func (w *liqWorld) opDrain() {
 		return
 	}
 	w.rec.Count("pool_drains_attempted", 1)
+	// somebody has sent the pool's reserve account a coin that is not one of the pool's two (an ordinary bank send)
+	if w.rnd.Intn(2) == 0 {
+		if pair, found := w.c.App.LiquidityKeeper.GetPair(w.ctx(), pool.AppId, pool.PairId); found {
+			for _, d := range w.denoms {
+				if d != pair.BaseCoinDenom && d != pair.QuoteCoinDenom {
+					a := w.lps[w.rnd.Intn(len(w.lps))]
+					amt := sdk.NewCoin(d, sdkmath.NewInt(int64(1+w.rnd.Intn(5000))))
+					w.deliver(a, "bank-send-to-reserve", banktypes.NewMsgSend(a.Addr, pool.GetReserveAddress(), sdk.NewCoins(amt)), fmt.Sprintf("stray coin %s to the reserve of pool %d (app %d)", amt, pool.Id, pool.AppId))
+					break
+				}
+			}
+		}
+	}
 	for _, a := range w.lps {
 		act, q := w.farmed(a, pool)
 		if tot := act.Add(q); tot.IsPositive() {
